@@ -622,6 +622,44 @@ def _tdopt_case(kind, entry, nm):
         return rt.ok()
 
 
+def _manyvols(order, nm, reader):
+    """entries trashed by trash-put on THREE volumes (home, /v, /w) in one trash each; a reader that walks all of them
+    decodes every Path against the top directory of the volume the entry's own trash directory belongs to"""
+    with rt.untraced():
+        names = TD_NAMES[nm]
+        rt.begin(('many-volumes', order, names, reader))
+        locs = ['/h/w/' + names, '/v/d/' + names, '/w/d/' + names]
+        nodes = [W.d('/h'), W.d('/h/w'), W.d('/v/d'), W.d('/w/d')] + [W.f(p_, 'DATA' + p_[:2], 0o644, 1000 + i) for i, p_ in enumerate(locs)]
+        world = W.W(mounts=['/', '/v', '/w'], cwd='/', nodes=nodes)
+        e = scen.env()
+        seq = [locs, locs[::-1], [locs[1], locs[2], locs[0]]][order]
+        steps = [C('put', ['--', p_], e, cwd='/', now='2021-03-04T05:06:0%d' % i) for i, p_ in enumerate(seq)]
+        steps.append(C('list', [], e, cwd='/') if reader == 0 else C('restore', ['/'], e, stdin=[''], cwd='/'))
+        m, res = scen.run_model(world, steps)
+        for r_ in res:
+            if r_['exc']:
+                return rt.fail('C03:traceback:%s:many-volumes' % r_['exc'].split(':')[0], r_['exc'])
+        if any(r_['exit'] != 0 for r_ in res[:3]):
+            return rt.fail('C03:put-failed:many-volumes', repr([r_['err'] for r_ in res[:3]])[:300])
+        want = sorted('2021-03-04 05:06:0%d %s' % (i, p_) for i, p_ in enumerate(seq))
+        if reader == 0:
+            got = sorted(K.lines(res[3]['out']))
+        else:
+            got = sorted('%s %s' % (d, p_) for (_, d, p_) in K.restore_listing(res[3]['out']))
+        if got != want:
+            return rt.fail('C03:%s-does-not-decode-to-the-location:entries-on-several-volumes' % ('list' if reader == 0 else 'restore'),
+                           '%s shows %r, the entries were trashed from %r' % ('trash-list' if reader == 0 else 'trash-restore', got, want))
+        return rt.ok()
+
+
+def w_manyvols(order: int, nm: int, reader: int) -> str:
+    """
+    pre: 0 <= order < 3 and 0 <= nm < 4 and 0 <= reader < 2
+    post: _ == ''
+    """
+    return _manyvols(rt.sel(order, 3), rt.sel(nm, 4), rt.sel(reader, 2))
+
+
 def w_tdopt(kind: int, entry: int, nm: int) -> str:
     """
     pre: 0 <= kind < 6 and 0 <= entry < 3 and 0 <= nm < 4
@@ -669,6 +707,9 @@ def obligations(tier):
         CH('W_path_rule_after_candidate_fallthrough', MOD, 'w_fall', timeout=600, engine='W', regime='selector',
            encodes=K.PUT_FUNCS, stubs=K.STUBS + ['persistent errno on one directory'],
            bounds='3 fall-through directions (home->.Trash-uid, .Trash-uid->home fallback, .Trash/uid->.Trash-uid) x 4 errnos x 6 kinds'),
+        CH('W_entries_on_three_volumes_read_in_one_run', MOD, 'w_manyvols', timeout=300, engine='W', regime='selector',
+           encodes=K.PUT_FUNCS + K.LIST_FUNCS + K.RESTORE_FUNCS + ['InfoDirSearcher.all_file_in_info_dir'], stubs=K.STUBS,
+           bounds='one entry trashed by trash-put on each of 3 volumes (home, /v, /w) in 3 orders x 4 names, then trash-list / trash-restore over all trash directories'),
         CH('W_explicit_trash_dir_write_then_read', MOD, 'w_tdopt', timeout=600, engine='W', regime='selector',
            encodes=K.PUT_FUNCS + K.LIST_FUNCS + K.RESTORE_FUNCS, stubs=K.STUBS,
            bounds='trash-put --trash-dir T then trash-list / trash-restore --trash-dir T: 6 spellings of T (directory on the same / another volume, symbolic link crossing volumes either way, '
